@@ -268,7 +268,7 @@ struct ChildOut {
 }
 
 fn spawn(args: &[String]) -> ChildOut {
-    let exe = std::env::current_exe().expect("current_exe");
+    let exe = crate::util::self_exe();
     let out = Command::new(exe).args(args).env_remove("SHUTTLE_RANDOM_SEED").env("VERIF_STDERR", "keep").output();
     match out {
         Ok(o) => ChildOut {
@@ -336,6 +336,13 @@ pub fn one_case(history: &[(String, Scenario, bool)], mode: &str, sc: Scenario, 
     acc.distinct.insert(crate::util::hash64(format!("{:?}{mode}{}", history, sc.name()).as_bytes()));
     let line = out.stdout.lines().find(|l| l.starts_with(&format!("C12RUN {target_idx} ")));
     let Some(line) = line else {
+        if out.stderr.starts_with("spawn failed") {
+            // the harness could not start its own child: nothing was observed
+            acc.notes.push(format!("child process could not be started: {}", out.stderr));
+            acc.add("children_not_started", 1);
+            let _ = std::fs::remove_dir_all(&dir);
+            return;
+        }
         acc.violation(
             "child-died",
             format!("the process running {:?} ended (status {:?}) before reporting the target run", hist_desc, out.status),
@@ -507,7 +514,10 @@ pub fn run(r: &mut Report) {
             let res = out.stdout.lines().find_map(|l| l.strip_prefix("C12PORTFOLIO ")).unwrap_or("").to_string();
             let failed = !res.starts_with("pass:");
             let should_fail = sc != Scenario::Pass;
-            if res.is_empty() {
+            if res.is_empty() && out.stderr.starts_with("spawn failed") {
+                acc.notes.push(format!("portfolio child could not be started: {}", out.stderr));
+                acc.add("children_not_started", 1);
+            } else if res.is_empty() {
                 acc.violation("child-died", format!("portfolio child ended with status {:?} without a result", out.status), json!({"scenario": sc.name()}));
             } else if failed != should_fail {
                 acc.violation("portfolio-verdict", format!("portfolio over bodies of scenario {} ended {res:?}", sc.name()), json!({"scenario": sc.name(), "stop_on_first_failure": stop}));
